@@ -10,8 +10,8 @@ import (
 func init() {
 	register(&Property{
 		Meta: PropMeta{
-			ID:    "C08",
-			Level: "other",
+			ID:          "C08",
+			Level:       "other",
 			Explanation: "Structural necessary conditions of command selection and option scoping, decided on the SSA of /repo for all paths: (RESOLVE) in parseNonOption a command word is looked up — exactly, by the current token — in the command table of the current parse state, only with an empty positional queue, a current command that has subcommands and no remaining argument yet; on a hit Command.Active of the current command is stored and the hit's fillParseState runs before returning; Command.Active is stored nowhere else; (TABLE) fillLookup enters every subcommand under its Name and under each of its Aliases with the same *Command, only when not filling ancestors' options; (SCOPE) makeLookup builds a fresh table on every call (three new maps, no caching), fills it from the ancestors collected by walking .parent outward and visited from the outermost to the nearest, then from the command itself last (so inner declarations overwrite), passing onlyOptions = true for ancestors and false for the command; fillParseState stores that fresh table, the command and a copy of its positionals; (DIAGNOSE) the command-required diagnosis runs only when parseState.err == nil and the *current* command has subcommands that are not optional, with ErrUnknownCommand iff a word was given; an unknown word is an error only when subcommands are not optional and is otherwise an ordinary argument.",
 			NotDecided:  "equivalence of `app -v add` and `app add -v` as outcomes (a relation between executions).",
 			Trusted:     []string{"go/ssa lowering", "go/types", "Go map semantics"},
